@@ -376,7 +376,7 @@ def make_items(ctx):
             main_items.append(flow_item(t[0], 2, t[1], t[2], rng, scale=0.2, ks=True))
         # order: the item that needs no numerical inversion first, so that a non-terminating inversion cannot hide it
         bnaf_items = [flow_item("bnaf", 2, None, True, rng, scale=0.2, ks=False), flow_item("bnaf", 1, None, True, rng),
-                      flow_item("bnaf", 1, 2 if sd % 2 else None, False, rng)]
+                      flow_item("bnaf", 1, 2 if sd % 2 else None, False, rng), flow_item("bnaf-deep", 1, 2, True, rng, scale=0.3)]
     else:
         main_items, bnaf_items = [], []
         for n in names:
